@@ -173,6 +173,45 @@ Theorem C06_ev_density_cert : forall c we fe,
 Proof. exact ev_density_cert. Qed.
 Print Assumptions C06_ev_density_cert.
 
+(* ---- all groupings into simultaneous data sets: one likelihood model per data set ---- *)
+
+(* a per-set configuration entry (bg_frac / bg_weight) given as ONE scalar or as a list with one value per set:
+   the FCNs built by get_fcn cover exactly the data sets handed to it, in order *)
+Theorem C06_every_data_set_enters : forall (A D : Type) (entry : A + list A) (sets : list D),
+  (forall l, entry = inr l -> length l = length sets) ->
+  map snd (fcn_parts (models_for_sets entry (length sets)) sets) = sets.
+Proof. exact @every_data_set_enters. Qed.
+Print Assumptions C06_every_data_set_enters.
+
+(* the code before /verif/build/fix_C06/patch_1.diff (cfit, scalar bg_frac: one model) dropped data sets *)
+Theorem C06_old_scalar_bg_frac_refuted :
+  exists (entry : R + list R) (sets : list nat),
+    (forall l, entry = inr l -> length l = length sets) /\
+    (length (fcn_parts (models_for_sets_old entry (length sets)) sets) < length sets)%nat.
+Proof. exact old_scalar_entry_drops_sets_refuted. Qed.
+Print Assumptions C06_old_scalar_bg_frac_refuted.
+
+(* the code before patch_2.diff reused the model list built for an earlier number of sets *)
+Theorem C06_old_stale_model_list_refuted :
+  exists (entry : R + list R) (n1 : nat) (sets : list nat),
+    (length (fcn_parts (models_for_sets entry n1) sets) < length sets)%nat.
+Proof. exact stale_model_list_drops_sets_refuted. Qed.
+Print Assumptions C06_old_stale_model_list_refuted.
+
+(* simple_cfit before patch_4.diff ignored the efficiency of the data events *)
+Theorem C06_simple_cfit_old_ignores_eff_refuted :
+  exists fb W e f b V eg g bm,
+    simple_cfit_call_old fb W e [1] f b V eg g bm <> simple_cfit_call fb W e f b V eg g bm.
+Proof. exact simple_cfit_old_ignores_eff_refuted. Qed.
+Print Assumptions C06_simple_cfit_old_ignores_eff_refuted.
+
+(* OPEN finding (rescaling:clip_log_unnormalised): without the hypothesis "all densities above the clip threshold"
+   of C06_nll_scale_invariant the non-extended NLL of the code is NOT invariant under a common rescaling *)
+Theorem C06_nll_scale_below_clip_refuted :
+  exists c w f v g, 0 < c /\ nll_base false w (rscale c f) v (rscale c g) <> nll_base false w f v g.
+Proof. exact nll_scale_below_clip_refuted. Qed.
+Print Assumptions C06_nll_scale_below_clip_refuted.
+
 (* non-vacuity: the hypotheses are satisfiable (mixed-sign weights, densities above the threshold) *)
 Example C06_example_hyps :
   let w := blend [1; -1/2; 2] (bg_const_weights (1/4) 2) in
